@@ -329,13 +329,18 @@ def _visit(hist, rec, seen):
     M = model_init()
     hname = [" ".join(OPS[i]).strip() for i in hist]
     case = dict(history=hname)
+    all_args = []
     for step, i in enumerate(hist):
         op = OPS[i]
         last = step == len(hist) - 1
         before = Bd.state_key(est)
         M2, ok = model_apply(M, op)
         exc, args = impl_apply(est, op, n=(M["A"].shape[1] if M["A"] is not None else 3))
+        all_args.append((op[0], args))
         if last:
+            for opn_, args_ in all_args[:-1]:
+                if any(not np.array_equal(a, c) for a, c in args_):
+                    _v(rec, "e", dict(op=op[0], what="earlier-caller-array-modified"), "%s modified an array that the caller had supplied to an earlier %s call" % (op[0], opn_), case, script=_script(hist))
             rec.trans()
             rec.path()
             sig = dict(op=op[0])
